@@ -346,4 +346,98 @@ example : decode (.struct [("a".toList, .int), ("o".toList, .option .int), ("xs"
     some (.struct [("a".toList, .int (-3)), ("o".toList, .none_), ("xs".toList, .list [.str "é\"".toList])]) := by
   apply roundtrip <;> rfl
 
+/-! ### Inherited fields keep declaration order -/
+
+/-- Parent of level `i` in a chain started under `parent`. -/
+def parentOf (levels : List (String × List (List Char × Ty))) (parent : Option String) : Nat → Option String
+  | 0 => parent
+  | i + 1 => (levels[i]?).map (·.1)
+
+theorem findClass_chain (levels : List (String × List (List Char × Ty))) (parent : Option String)
+    (hnd : (levels.map (·.1)).Nodup) (i : Nat) (hi : i < levels.length) :
+    findClass (chainDecls levels parent) (levels[i]).1
+      = some ⟨(levels[i]).1, parentOf levels parent i, (levels[i]).2⟩ := by
+  induction levels generalizing parent i with
+  | nil => simp at hi
+  | cons l rest ih =>
+    obtain ⟨n, fs⟩ := l
+    cases i with
+    | zero => simp [chainDecls, findClass, parentOf]
+    | succ j =>
+      have hj : j < rest.length := by simpa using hi
+      have hnd' : (rest.map (·.1)).Nodup := (List.nodup_cons.1 (by simpa using hnd)).2
+      have hne : n ≠ (rest[j]).1 := by
+        intro h
+        have hmem : n ∈ rest.map (·.1) := by
+          rw [h]; exact List.mem_map.2 ⟨rest[j], List.getElem_mem hj, rfl⟩
+        exact (List.nodup_cons.1 (by simpa using hnd)).1 hmem
+      have := ih (some n) hnd' j hj
+      simp only [findClass] at this ⊢
+      simp only [chainDecls, List.getElem_cons_succ, List.find?_cons]
+      have hb : (n == (rest[j]).1) = false := by simpa using hne
+      simp only [hb]
+      rw [this]
+      cases j with
+      | zero => simp [parentOf]
+      | succ k => simp [parentOf]
+
+theorem inherited_chain (levels : List (String × List (List Char × Ty)))
+    (hnd : (levels.map (·.1)).Nodup) (i : Nat) (hi : i < levels.length) (fuel : Nat) (hf : i < fuel) :
+    inheritedFields (chainDecls levels none) fuel (levels[i]).1 = (levels.take (i + 1)).flatMap (·.2) := by
+  induction i generalizing fuel with
+  | zero =>
+    cases fuel with
+    | zero => omega
+    | succ f =>
+      have h0 := findClass_chain levels none hnd 0 hi
+      simp only [inheritedFields, h0, parentOf]
+      cases levels with
+      | nil => simp at hi
+      | cons l rest => simp
+  | succ j ih =>
+    cases fuel with
+    | zero => omega
+    | succ f =>
+      have hj : j < levels.length := by omega
+      have hs := findClass_chain levels none hnd (j + 1) hi
+      simp only [inheritedFields, hs, parentOf, List.getElem?_eq_getElem hj, Option.map_some]
+      rw [ih hj f (by omega)]
+      rw [List.take_succ_eq_append_getElem hi, List.flatMap_append]
+      simp
+
+theorem chainDecls_length (levels : List (String × List (List Char × Ty))) (parent : Option String) :
+    (chainDecls levels parent).length = levels.length := by
+  induction levels generalizing parent with
+  | nil => rfl
+  | cons l rest ih => obtain ⟨n, fs⟩ := l; simp [chainDecls, ih]
+
+/-- MAIN (field order): in a chain `C0 <- C1 <- … <- Cn` of classes with distinct names, the struct emitted for
+every `Ci` lists the fields of `C0`, then `C1`, …, then its own: the declaration order that derived `Ord` compares
+in and that `json_stringify` writes. -/
+theorem chain_fields_in_declaration_order (levels : List (String × List (List Char × Ty)))
+    (hnd : (levels.map (·.1)).Nodup) (i : Nat) (hi : i < levels.length) :
+    classFields (chainDecls levels none) ⟨(levels[i]).1, parentOf levels none i, (levels[i]).2⟩
+      = (levels.take (i + 1)).flatMap (·.2) := by
+  cases i with
+  | zero =>
+    cases levels with
+    | nil => simp at hi
+    | cons l rest => simp [classFields, parentOf]
+  | succ j =>
+    have hj : j < levels.length := by omega
+    simp only [classFields, parentOf, List.getElem?_eq_getElem hj, Option.map_some]
+    rw [inherited_chain levels hnd j hj _ (by rw [chainDecls_length]; exact hj)]
+    rw [List.take_succ_eq_append_getElem hi, List.flatMap_append]
+    simp
+
+/-- and the declaration the checker / lowering finds for `Ci` is that one. -/
+theorem chain_lookup (levels : List (String × List (List Char × Ty))) (hnd : (levels.map (·.1)).Nodup)
+    (i : Nat) (hi : i < levels.length) :
+    findClass (chainDecls levels none) (levels[i]).1 = some ⟨(levels[i]).1, parentOf levels none i, (levels[i]).2⟩ :=
+  findClass_chain levels none hnd i hi
+
+example : classFields (chainDecls [("Base", [(['a'], .int)]), ("Mid", [(['b'], .int)]), ("Leaf", [(['c'], .int)])] none)
+    ⟨"Leaf", some "Mid", [(['c'], .int)]⟩ = [(['a'], .int), (['b'], .int), (['c'], .int)] := by
+  simp [classFields, chainDecls, inheritedFields, findClass]
+
 end Incan.Derive
